@@ -110,6 +110,10 @@ def make_biopython(circular, layout, extras=()):
             rec.features.append(SeqFeature(loc, type="gene", qualifiers={"locus_tag": [name], "gene": [name + "X"]}))
     if "source" in extras:
         rec.features.append(SeqFeature(F(0, L, 1), type="source", qualifiers={"organism": ["test organism"], "mol_type": ["genomic DNA"]}))
+    if "two-sources" in extras and "source" not in extras:
+        # two source features over the whole record (a record assembled from two organisms' sequences keeps both)
+        rec.features.append(SeqFeature(F(0, L, 1), type="source", qualifiers={"organism": ["organism B"], "mol_type": ["genomic DNA"]}))
+        rec.features.append(SeqFeature(F(0, L, 1), type="source", qualifiers={"organism": ["organism A"], "mol_type": ["genomic DNA"]}))
     if "misc" in extras:
         rec.features.append(SeqFeature(F(3, 9, 1), type="misc_feature", qualifiers={"note": ["a plain feature"]}))
     return rec
@@ -391,7 +395,7 @@ def _parent_number(proto):
 
 
 EXTRAS_MENU = ["pfam", "nrps", "prepeptide", "tta", "misc", "gene", "source", "cdsnote", "prepeptide-plain", "smiles", "nrps-double",
-               "smiles-long", "smcog-function", "smiles-each", "prepeptide-long"]
+               "smiles-long", "smcog-function", "smiles-each", "prepeptide-long", "two-sources"]
 
 
 def specs(tier):
